@@ -24,5 +24,5 @@ T[cfc61f8]="C07"
 for p in mutants/revert-*.patch; do
   h=$(basename $p | cut -d- -f2)
   echo "== $(basename $p)"
-  tools/run_mutant.sh /verif/$p -R ${T[$h]}
+  if [ -n "${SCRATCH:-}" ]; then tools/mut_env.sh run /verif/$p -R ${T[$h]}; else tools/run_mutant.sh /verif/$p -R ${T[$h]}; fi
 done
